@@ -194,7 +194,9 @@ func genSuffixText(r *rand.Rand, maxN int) ([]byte, string) {
 	if n > maxN {
 		n = maxN
 	}
-	switch r.Intn(8) {
+	switch r.Intn(9) {
+	case 8:
+		return tandemBudgetText(r), "tandembudget"
 	case 0: // alternating runs of two letters, random run lengths (substring heap sort)
 		out := make([]byte, 0, n)
 		c := byte('a')
@@ -250,6 +252,46 @@ func genSuffixText(r *rand.Rand, maxN int) ([]byte, string) {
 	}
 }
 
+// tandemBudgetText: exhaust the budget of the rank sort (an increasing chain
+// of distinct B* substrings, twice: quadratic work), then one tandem-repeat
+// group P^k whose members are followed by the repeat itself, by a smaller
+// substring (Z) and by a larger one (Y): trIntroSort then finishes the group
+// with trPartialCopy instead of trCopy. The structure was found by a seeding
+// agent; about 2 % of this family made the pinned Sort loop for ever.
+func tandemBudgetText(r *rand.Rand) []byte {
+	var out []byte
+	chain := 14 + r.Intn(12)
+	for rep := 0; rep < 2; rep++ {
+		for j := 0; j < chain; j++ {
+			out = append(out, 1, byte(2+j))
+		}
+		out = append(out, 1, byte(255-rep))
+	}
+	P := []byte{100, 101}
+	Y := []byte{120, 121, 120, 122, 120, 123, 120}
+	Z := []byte{50, 51, 50}
+	a, b, c := 1+r.Intn(6), 1+r.Intn(6), 1+r.Intn(6)
+	rep := func(k int) {
+		for i := 0; i < k; i++ {
+			out = append(out, P...)
+		}
+	}
+	blocks := []func(){
+		func() { rep(a); out = append(out, Y...); out = append(out, 255) },
+		func() { rep(a); out = append(out, Y...); out = append(out, 254) },
+		func() { rep(b); out = append(out, Z...); out = append(out, 240) },
+		func() { rep(c); out = append(out, Z...); out = append(out, 239) },
+	}
+	order := []int{0, 1, 2, 3}
+	if r.Intn(3) == 0 {
+		order = r.Perm(4)
+	}
+	for _, k := range order {
+		blocks[k]()
+	}
+	return out
+}
+
 func genSuffix(seed int64, n int, tier string) []Script {
 	r := rand.New(rand.NewSource(seed))
 	maxN := 1500
@@ -273,6 +315,15 @@ func genSuffix(seed int64, n int, tier string) []Script {
 		}
 		out = append(out, Script{Tid: "suffix-" + itoa(seed) + "-" + itoa(int64(i)), Comp: "suffix",
 			Cfg: map[string]any{}, Ops: ops, Tags: []string{"go", "sort"}})
+	}
+	// the budget / tandem-repeat family on its own (short texts, many of them)
+	for i := 0; i < n; i += 10 {
+		var ops []map[string]any
+		for j := 0; j < 10; j++ {
+			ops = append(ops, map[string]any{"op": "suffix", "t": B2(tandemBudgetText(r)), "class": "tandembudget"})
+		}
+		out = append(out, Script{Tid: "suffix-tb-" + itoa(seed) + "-" + itoa(int64(i)), Comp: "suffix",
+			Cfg: map[string]any{}, Ops: ops, Tags: []string{"go", "sort", "tandembudget"}})
 	}
 	return out
 }
